@@ -178,7 +178,7 @@ func Children(kind string, v wire.V) []Child {
 		}
 		for _, k := range schemaMaps {
 			if m, ok := v.Get(k); ok && m.Kind == wire.Obj {
-				for _, mm := range m.O {
+				for _, mm := range sortedMembers(m) {
 					add("schema", mm.V, k, mm.K)
 				}
 			}
@@ -205,7 +205,7 @@ func Children(kind string, v wire.V) []Child {
 			}
 		}
 		if rs, ok := v.Get("responses"); ok && rs.Kind == wire.Obj {
-			for _, m := range rs.O {
+			for _, m := range sortedMembers(rs) {
 				if strings.HasPrefix(strings.ToLower(m.K), "x-") {
 					continue
 				}
@@ -214,22 +214,22 @@ func Children(kind string, v wire.V) []Child {
 		}
 	case "swagger":
 		if m, ok := v.Get("definitions"); ok && m.Kind == wire.Obj {
-			for _, mm := range m.O {
+			for _, mm := range sortedMembers(m) {
 				add("schema", mm.V, "definitions", mm.K)
 			}
 		}
 		if m, ok := v.Get("parameters"); ok && m.Kind == wire.Obj {
-			for _, mm := range m.O {
+			for _, mm := range sortedMembers(m) {
 				add("parameter", mm.V, "parameters", mm.K)
 			}
 		}
 		if m, ok := v.Get("responses"); ok && m.Kind == wire.Obj {
-			for _, mm := range m.O {
+			for _, mm := range sortedMembers(m) {
 				add("response", mm.V, "responses", mm.K)
 			}
 		}
 		if m, ok := v.Get("paths"); ok && m.Kind == wire.Obj {
-			for _, mm := range m.O {
+			for _, mm := range sortedMembers(m) {
 				if strings.HasPrefix(mm.K, "/") {
 					add("pathItem", mm.V, "paths", mm.K)
 				}
@@ -237,6 +237,12 @@ func Children(kind string, v wire.V) []Child {
 		}
 	}
 	return out
+}
+
+func sortedMembers(m wire.V) []wire.Member {
+	ms := append([]wire.Member{}, m.O...)
+	sort.SliceStable(ms, func(i, j int) bool { return ms[i].K < ms[j].K })
+	return ms
 }
 
 // childKeys: the member names of an element that hold sub-elements (removed from its head).
@@ -595,8 +601,8 @@ func Generate(r *rand.Rand, o Options) *World {
 			if n.kind != kind {
 				continue
 			}
-			if !o.Cycles && i <= from {
-				continue // only forward edges: acyclic
+			if (!o.Cycles || kind != "schema") && i <= from {
+				continue // only forward edges: acyclic (element references are always well-founded)
 			}
 			cands = append(cands, n)
 		}
